@@ -74,6 +74,24 @@ class Report:
             self.undecided(getattr(fn, "__name__", str(fn)), e)
             return None
 
+    def run_only(self, rules, fn, *args, **kw):
+        """evaluate a rule family but take over only the obligations of the named rules (the clauses this property
+        states); args equal to this report are replaced by the scratch report"""
+        tmp = Report(self.prop, self.tier)
+        tmp.run(fn, *[tmp if a is self else a for a in args], **{k: (tmp if v is self else v) for k, v in kw.items()})
+        wanted = set(rules)
+        for rid, txt in tmp.rules.items():
+            if rid in wanted:
+                self.rules[rid] = txt
+        for o in tmp.obligations:
+            if o.rule in wanted:
+                self.obligations.append(o)
+        for n in tmp.notes:
+            if any(n.startswith(r) for r in wanted):
+                self.notes.append(n)
+        for u in tmp.undecided_list:
+            self.undecided_list.append(u)
+
     def unit(self, kind, n=1):
         self.units[kind] = self.units.get(kind, 0) + n
 
